@@ -78,6 +78,14 @@ class NarwhalsMaterializer(FormulaMaterializer):
     ) -> Any:
         if drop_rows:
             values = drop_nulls(values, indices=drop_rows)
+        if (
+            nw.dependencies.is_narwhals_series(values)
+            and values.dtype == nw.Boolean
+            and values.null_count() > 0
+        ):
+            # A boolean column whose missing values are kept has no numeric
+            # numpy representation other than float (NaN).
+            values = values.cast(nw.Float64)
         if spec.output == "sparse":
             return spsparse.csc_matrix(
                 numpy.array(values).reshape((values.shape[0], 1))
